@@ -885,7 +885,7 @@ int main(int argc, char **argv)
     std::map<std::string, long> totals;
     std::set<std::string> allStates;
     std::set<std::string> reportedSigs;
-    long nViol = 0, nKnown = 0, nRuns = 0, harnessErrors = 0, nTimeouts = 0;
+    long nViol = 0, nKnown = 0, nRuns = 0, harnessErrors = 0, nTimeouts = 0, nTransient = 0;
     double t0 = nowS();
     for (uint64_t idx = start + offset; idx < start + count; idx += stride) {
         Rng rng(mixSeed(seed, eng->name, idx));
@@ -928,10 +928,21 @@ int main(int argc, char **argv)
         }
         // Gate 1: the same plan twice more must give the same fingerprint and signature.
         RunResult r2 = runPlan(*eng, plan), r3 = runPlan(*eng, plan);
+        if (!r2.hasViolation && !r3.hasViolation && r2.fp == r3.fp && r.fp.compare(0, 6, "crash-") == 0 && nTransient < 3) {
+            // The child died (or never reported) once, and the same plan then ran clean twice with identical event logs:
+            // the machine, not the run (a saturated sandbox occasionally fails a fork's memory mappings).  Not an oracle
+            // verdict - those never come here - and tolerated at most three times per worker; counted in the evidence.
+            ++nTransient;
+            totals["transient_child_failures_not_reproduced"] += 1;
+            printf("TRANSIENT\t%llu\t%s\t%s\n", (unsigned long long)idx, r.v.sig.c_str(), r.v.detail.c_str());
+            std::ofstream(outDir + "/transient-" + eng->name + "-" + str(seed) + "-" + str(idx) + ".txt") << r.v.sig << "\n" << r.v.detail << "\n" << r.err << "\n" << plan.text();
+            continue;
+        }
         if (!(r2.hasViolation && r3.hasViolation && r2.v.sig == r.v.sig && r3.v.sig == r.v.sig && r2.fp == r.fp && r3.fp == r.fp)) {
             ++harnessErrors;
             std::string f = outDir + "/nondeterministic-" + eng->name + "-" + str(seed) + "-" + str(idx) + ".plan";
             std::ofstream(f) << plan.text();
+            std::ofstream(f + ".stderr") << r.v.detail << "\n" << r.err;
             printf("HARNESS\t%llu\tgate1 failed: sig/fp %s %s | %s %s | %s %s plan=%s\n", (unsigned long long)idx, r.v.sig.c_str(), r.fp.c_str(), r2.v.sig.c_str(), r2.fp.c_str(), r3.v.sig.c_str(), r3.fp.c_str(), f.c_str());
             continue;
         }
